@@ -103,6 +103,22 @@ CHECKS = {
         "jobs": [rapid("codec", "TestC14Keys", 250, 2000), rapid("codec", "TestC14Symmetric", 2000, 20000, shards=4), rapid("codec", "TestC14Accessors", 8000, 50000)],
         "assumptions": ["the private-key pipeline is observed at the library's accessors, as the property states"],
     },
+    "C15": {
+        "level": "exploration",
+        "technique": "property-based testing (rapid) over placeholder action scripts with generator-forced overlap (rendezvous inside handlers), real server in a synctest bubble and direct concurrent HandleRequest calls; oracle = per-request placeholder model with request-unique values",
+        "level_text": "Generated-history exploration: batches of set/read/read-or-id/clear/fail/set-then-fail actions on several connections (real Server over an in-memory listener inside a synctest bubble) or from several goroutines calling HandleRequest directly; rendezvous items make requests overlap at chosen items, sequences of requests on one connection test carry-over; every handler echoes what it observed and the value must be one the per-request model allows - any foreign value (values are unique per request) is a cross-request leak.",
+        "level_note": "After an intervening failed item the model accepts both the empty placeholder (library behaviour) and the previous value, since the statement does not say; overlap is forced at rendezvous points, not at every instruction.",
+        "jobs": [dict(rapid("server", "TestC15Placeholder", 3000, 20000), race=True)],
+        "assumptions": [],
+    },
+    "C16": {
+        "level": "exploration",
+        "technique": "property-based testing (rapid) over connection phases and client actions around Shutdown, executed in testing/synctest bubbles (exact 3 s grace period, quiescence detection); invariants on handler log, cancellation times, hook log and goroutine census",
+        "level_text": "Generated-history exploration: up to 6 connections are driven into drawn phases (idle, partial message, handler of 0..10 s honouring or ignoring its context, response blocked on a non-reading client, connecting during shutdown, closed, failing connect hook), Shutdown is called and clients may act during it. When Shutdown returns (after letting already-released goroutines finish, no time passing) the listener must be closed, Serve must have returned ErrShutdown, no handler may run or start later, the census must be 0, every in-flight request must have been answered or cancelled no earlier than 3 s of fake time, and the connect/terminate hook log must be paired.",
+        "level_note": "Shutdown and Serve are not synchronised with each other, so the accept loop's return is observed after quiescence rather than at the very instruction Shutdown returns.",
+        "jobs": [rapid("server", "TestC16Shutdown", 1500, 15000, timeout_s={"quick": 600, "thorough": 1700})],
+        "assumptions": ["a single Shutdown call, as documented"],
+    },
     "C17": {
         "level": "exploration",
         "technique": "exhaustive enumeration by the same generator (all 2^24 tags, all registered enumeration values and mask flags) plus rapid-drawn unregistered probes, against pinned tables and inverse-map/round-trip oracles",
